@@ -165,6 +165,9 @@ def run_shard(spec, seed, judge, nt_prog, nt_bytes, focus=None, full=None):
         if spec["idx"] % 4 == 3 and full is None:
             # the same attribute name in two modules, the second resolved once the first is dead
             prof = asm.full_profile(vocab.ASM_GLOBS_COLLIDING, rebind_dead_names=True)
+        elif spec["idx"] % 4 == 1 and full is None:
+            # Python-2 spellings (renamed by the unpickler below protocol 3 only)
+            prof = asm.full_profile(vocab.ASM_GLOBS + vocab.ASM_GLOBS_PY2)
         else:
             prof = full or asm.full_profile(vocab.ASM_GLOBS)
 
